@@ -33,6 +33,16 @@ Deciding monitor M (boundary, public API only), three parts:
   M.blockwise  block n formats to the same text before and after the re-parse
                (reported inside output-not-a-fixpoint when the whole text
                differs, as block-output-not-a-fixpoint when only a block does).
+  M.vobject    Version OBJECTS cross the API in both directions: histories hand a
+               debian.debian_support.Version to new_block / the version setters and
+               mutate the CALLER'S object afterwards, and read Version objects from the
+               changelog (cl.version, cl.get_version(), cl[i].version, cl.versions[i],
+               cl.get_versions()[i]) and mutate those.  After every such mutation all
+               blocks are read back and compared with the model (the version that was
+               SET stays), the Changelog-level views (cl.version, get_version(),
+               versions, get_versions()) must show the model's versions, and
+  M.vobject-format  the text formatted right after the mutation must be a normal form
+               of the model (same oracle as M.history-mid).
   N.twin       NON-DECIDING note: the history without its mid-history formats,
                run on a second object, ends in the same text (layout purity of
                str(); the statement is silent on it).
@@ -92,7 +102,18 @@ RULE = ('Texts: 1-3 generated well-formed blocks (urgency comments, extra key=va
         'the heading, inside the changes, last, as the heading, as the trailer, in a non-last block and as the start of the '
         'enumerated edit matrix; the random generators (one junk line in four) draw from the full template x token product; '
         'own-heading variants append a look-alike pair / urgency value.  Counters fmt:reported:<site>:<percent|brace|backslash> '
-        'and fmt:reported-token:<token> are measured on the text of the warnings the live parser emitted.')
+        'and fmt:reported-token:<token> are measured on the text of the warnings the live parser emitted.  '
+        'Version-object class: histories (start = empty + new_block, 1-3 well-formed blocks, fixture blocks, a multi-block '
+        'irregular text or a mutated text; 4-10 further calls) in which a debian.debian_support.Version OBJECT is handed to '
+        'new_block(version=V), cl.version = V, cl.set_version(V), cl[i].version = V (all four handles) or to every block while '
+        'iterating (one object for all blocks), kept by the caller and mutated LATER (assignments to upstream_version, '
+        'debian_revision, debian_version, epoch, full_version; None for epoch / revision), possibly handed over AGAIN after the '
+        'mutation (same object to a second block); and in which Version objects READ from the changelog (cl.version, '
+        'cl.get_version(), cl[i].version through the four handles, cl.versions[i], cl.get_versions()[i]) are kept and mutated, '
+        'interleaved with ordinary edits, new_block calls (the block moves to an older index) and mid-history formats; an '
+        'enumerated matrix (empty+new_block | one block | three blocks) x (every hand-over path | every read path, every block) '
+        'x (seven mutations) x (mutate | mutate,format | format,mutate | mutate,edit,format | mutate twice) is run as well.  '
+        'Counters vobj:mutated:<origin> / vobj:mutated-attr:<attribute> count only mutations that changed str(object).')
 ASSUMPTIONS = [
     'input texts are str (the constructor decodes bytes itself; undecodable bytes are outside "input text")',
     '"can be formatted" = str(changelog) does not raise ChangelogCreateError; such cases are skipped and counted',
@@ -126,6 +147,19 @@ ASSUMPTIONS = [
     'raised ChangelogParseError exactly when lenient warned); the fmt:* counters read the warning text for reach evidence '
     'only.  str(ChangelogParseError) raising, or the strict error text not containing the first lenient warning, is a '
     'non-deciding note (note:parse-error-cannot-be-printed, note:strict-error-text-lacks-first-lenient-warning)',
+    'Version objects: "attribute assignment" / new_block with a debian.debian_support.Version V sets the version str(V) shows AT '
+    'THE TIME OF THE CALL (for a fresh Version(s): s); the changelog is edited only through its own editing calls, so a later '
+    'assignment to an attribute of the caller\'s object, or of a Version object obtained from cl.version / cl.get_version() / '
+    'block.version / cl.versions / cl.get_versions(), is not an editing call and must leave every public attribute of every '
+    'block, the Changelog-level version views and the formatted text (re-parsed) at the version that was set.  NOT demanded: '
+    'that the objects handed out are distinct or fresh (only the absence of the effect), anything about the Version object '
+    'itself (a ValueError or any other exception from the mutation is the Version class\'s business - property C14 - and is '
+    'counted, vobj:mutation-rejected / note:version-mutation-raises-other), that the call leaves the caller\'s object unchanged '
+    '(note:callers-version-object-changed-by-the-call), cl.full_version / epoch / upstream_version / debian_revision views',
+    'mutation values are well-formed version components; a Version object is read only through block handles / views of the '
+    'changelog under test; reading a version from a block whose raw version string is not a valid version (mutated texts) may '
+    'raise - counted (vobj:read-unreadable), nothing held; Changelog-level views are compared only when the model versions '
+    'they have to construct are valid or unset',
 ]
 ANCHORS = ['debian.changelog:Changelog.parse_changelog',
            'debian.changelog:Changelog._parse_error',
@@ -134,7 +168,9 @@ ANCHORS = ['debian.changelog:Changelog.parse_changelog',
            'debian.changelog:Changelog.add_change',
            'debian.changelog:ChangeBlock.add_change',
            'debian.changelog:ChangeBlock.add_trailing_line',
-           'debian.changelog:ChangeBlock._format']
+           'debian.changelog:ChangeBlock._format',
+           'debian.changelog:ChangeBlock._set_version',
+           'debian.changelog:Changelog.set_version']
 MUST_REACH = ['debian.changelog:Changelog.parse_changelog', 'debian.changelog:Changelog.new_block',
               'debian.changelog:ChangeBlock.add_change', 'debian.changelog:ChangeBlock._format']
 
@@ -142,6 +178,7 @@ TEXTS = {'quick': 20000, 'thorough': 1000000}
 HISTS = {'quick': 4000, 'thorough': 300000}
 MTEXTS = {'quick': 4000, 'thorough': 200000}     # multi-block texts, irregular construct in a non-last block
 MHISTS = {'quick': 3000, 'thorough': 150000}     # histories on >= 2 blocks: older-block edits, mid-history formats
+VHISTS = {'quick': 3000, 'thorough': 150000}     # Version-object histories (caller's / read objects mutated later)
 MIN_PAIRS = 100      # design floor is 40; the enumeration part alone yields ~200 on the current tree
 
 _Q_COUNTERS = {
@@ -152,28 +189,28 @@ _Q_COUNTERS = {
     'sole:empty-file': 10, 'sole:eof-inside-block': 400, 'sole:invalid-key-value': 430, 'sole:repeated-key': 210,
     'sole:unexpected-line-at-start-of-changes': 2000, 'sole:unexpected-line-before-first-heading': 1900,
     'sole:unexpected-line-between-blocks': 2900, 'sole:unexpected-line-in-changes': 3200, 'strict:accepted': 8100,
-    'strict:raised': 19000, 'normalform:eof-block': 1800, 'normalform:rich-heading': 15000, 'op:new_block': 4600,
-    'op:add_change': 4000, 'op:set': 2600, 'op:bset': 8900, 'hist:from-empty': 1000, 'hist:from-parsed': 7500,
+    'strict:raised': 19000, 'normalform:eof-block': 1800, 'normalform:rich-heading': 15000, 'op:new_block': 6700,
+    'op:add_change': 4400, 'op:set': 3500, 'op:bset': 11000, 'hist:from-empty': 1500, 'hist:from-parsed': 9100,
     # multi-block class (irregular construct in a non-last block; older-block edits; mid-history formats):
     # a run that never exercises it is inconclusive
     'multi:texts': 4700, 'multi:normalform-on-2+-blocks': 4100, 'multi:warned-and-2+-blocks': 2900,
     'multi:bad-trailer-accepted-in-non-last-block': 1100, 'multi:irregular-in-middle-block': 1000,
     'multi:family:own-trailer-one-space': 850, 'multi:family:trailer-junk': 720, 'multi:family:heading-junk': 910,
     'multi:family:own-heading-variant': 570, 'multi:family:between': 770, 'multi:family:in-changes': 260,
-    'multi:family:layout': 270, 'multi:family:slurp': 260, 'op:badd': 2000, 'op:seteach': 310, 'op:fmt': 2700,
-    'op:fmt-block': 670, 'op:edit-after-mid-format': 5300, 'older:bset': 3000, 'older:badd': 1300,
-    'older:seteach': 300, 'older:edit-after-mid-format': 2600, 'older-attr:author': 320, 'older-attr:date': 640,
-    'older-attr:urgency': 320, 'older-attr:distributions': 330, 'older-attr:package': 340, 'older-attr:version': 330,
-    'older-attr:urgency_comment': 350, 'older-attr:other_pairs': 330, 'older-attr:changes': 1300,
-    'handle:index': 1300, 'handle:neg': 1000, 'handle:iter': 1000, 'handle:list': 1000,
-    'hist:final-format-after-mid-format-and-edit': 2000, 'hist:final-format-after-older-block-edit': 2000,
+    'multi:family:layout': 270, 'multi:family:slurp': 260, 'op:badd': 2200, 'op:seteach': 680, 'op:fmt': 4000,
+    'op:fmt-block': 830, 'op:edit-after-mid-format': 6700, 'older:bset': 4200, 'older:badd': 1400,
+    'older:seteach': 540, 'older:edit-after-mid-format': 2900, 'older-attr:author': 380, 'older-attr:date': 680,
+    'older-attr:urgency': 450, 'older-attr:distributions': 370, 'older-attr:package': 390, 'older-attr:version': 1100,
+    'older-attr:urgency_comment': 380, 'older-attr:other_pairs': 360, 'older-attr:changes': 1400,
+    'handle:index': 1600, 'handle:neg': 1300, 'handle:iter': 1300, 'handle:list': 1300,
+    'hist:final-format-after-mid-format-and-edit': 2500, 'hist:final-format-after-older-block-edit': 3000,
     # formatting look-alike class (%, {, }, backslash in reported / accepted lines and in argument values):
     # measured on the text of the warnings the live parser emitted; a run that never has the parser report
     # such a line is inconclusive
     'fmt:accepted-silently:backslash': 3300, 'fmt:accepted-silently:brace': 4800,
-    'fmt:accepted-silently:percent': 5200, 'fmt:hist-arg:backslash': 1100, 'fmt:hist-arg:brace': 1700,
-    'fmt:hist-arg:percent': 1900, 'fmt:hist-start:backslash': 1400, 'fmt:hist-start:brace': 2400,
-    'fmt:hist-start:percent': 3000, 'fmt:normalform:backslash': 10000, 'fmt:normalform:brace': 16000,
+    'fmt:accepted-silently:percent': 5200, 'fmt:hist-arg:backslash': 1600, 'fmt:hist-arg:brace': 2500,
+    'fmt:hist-arg:percent': 2700, 'fmt:hist-start:backslash': 2000, 'fmt:hist-start:brace': 3100,
+    'fmt:hist-start:percent': 3800, 'fmt:normalform:backslash': 10000, 'fmt:normalform:brace': 16000,
     'fmt:normalform:percent': 17000, 'fmt:reported-on-2+-blocks': 1400, 'fmt:reported-token:%': 440,
     'fmt:reported-token:%%': 580, 'fmt:reported-token:%(x)s': 690, 'fmt:reported-token:%d': 730,
     'fmt:reported-token:%s': 1100, 'fmt:reported-token:100%': 770, 'fmt:reported-token:backslash': 1700,
@@ -200,6 +237,25 @@ _Q_COUNTERS = {
     'fmt:site-on-text-with-special:unexpected-line-between-blocks': 4500,
     'fmt:site-on-text-with-special:unexpected-line-in-changes': 4700, 'fmt:strict-raised-on:backslash': 1000,
     'fmt:strict-raised-on:brace': 2400, 'fmt:strict-raised-on:percent': 3300,
+    # Version-object class (a Version handed to new_block / the setters and mutated by the caller afterwards; a Version
+    # read from the changelog and mutated): counted only when str(object) changed; a run that never does it is inconclusive
+    'hist:final-format-after-version-object-mutation': 2000, 'vobj:edit-after-mutation': 2400,
+    'vobj:format-after-mutation': 780, 'vobj:format-checked-after-mutation:passed-to-new_block': 590,
+    'vobj:format-checked-after-mutation:passed-to-setter': 1000,
+    'vobj:format-checked-after-mutation:read-from-changelog': 1100, 'vobj:handed-again-after-mutation': 100,
+    'vobj:handed:bset': 1700, 'vobj:handed:new_block': 1400, 'vobj:handed:set': 560, 'vobj:handed:seteach': 280,
+    'vobj:mutated-after-mid-format': 900, 'vobj:mutated-attr:debian_revision': 790,
+    'vobj:mutated-attr:debian_version': 650, 'vobj:mutated-attr:epoch': 660, 'vobj:mutated-attr:full_version': 700,
+    'vobj:mutated-attr:upstream_version': 700, 'vobj:mutated-kind:passed-to-new_block': 760,
+    'vobj:mutated-kind:passed-to-setter': 1300, 'vobj:mutated-kind:read-from-changelog': 1400,
+    'vobj:mutated-object-handed-to-several-blocks': 140, 'vobj:mutated-while-block-is:every-block': 150,
+    'vobj:mutated-while-block-is:newest': 2500, 'vobj:mutated-while-block-is:older': 890,
+    'vobj:mutated:arg:bset': 870, 'vobj:mutated:arg:new_block': 760, 'vobj:mutated:arg:set': 320,
+    'vobj:mutated:arg:seteach': 150, 'vobj:mutated:read:block': 410, 'vobj:mutated:read:cl.version': 210,
+    'vobj:mutated:read:get_version': 200, 'vobj:mutated:read:get_versions': 250, 'vobj:mutated:read:versions': 250,
+    'vobj:read-from-older-block': 660, 'vobj:read-handle:index': 170, 'vobj:read-handle:iter': 190,
+    'vobj:read-handle:list': 220, 'vobj:read-handle:neg': 210, 'vobj:read:block': 830, 'vobj:read:cl.version': 410,
+    'vobj:read:get_version': 410, 'vobj:read:get_versions': 450, 'vobj:read:versions': 430,
 }
 _T_COUNTERS = {
     'warn:bad-trailer': 89000, 'warn:bad-urgency-value': 33000, 'warn:empty-file': 24,
@@ -210,27 +266,27 @@ _T_COUNTERS = {
     'sole:invalid-key-value': 14000, 'sole:repeated-key': 8800, 'sole:unexpected-line-at-start-of-changes': 84000,
     'sole:unexpected-line-before-first-heading': 83000, 'sole:unexpected-line-between-blocks': 110000,
     'sole:unexpected-line-in-changes': 130000, 'strict:accepted': 370000, 'strict:raised': 820000,
-    'normalform:eof-block': 83000, 'normalform:rich-heading': 640000, 'op:new_block': 290000, 'op:add_change': 260000,
-    'op:set': 180000, 'op:bset': 220000, 'hist:from-empty': 75000, 'hist:from-parsed': 150000, 'multi:texts': 200000,
+    'normalform:eof-block': 83000, 'normalform:rich-heading': 640000, 'op:new_block': 380000, 'op:add_change': 280000,
+    'op:set': 220000, 'op:bset': 360000, 'hist:from-empty': 91000, 'hist:from-parsed': 210000, 'multi:texts': 200000,
     'multi:normalform-on-2+-blocks': 170000, 'multi:warned-and-2+-blocks': 120000,
     'multi:bad-trailer-accepted-in-non-last-block': 53000, 'multi:irregular-in-middle-block': 47000,
     'multi:family:own-trailer-one-space': 43000, 'multi:family:trailer-junk': 28000,
     'multi:family:heading-junk': 28000, 'multi:family:own-heading-variant': 28000, 'multi:family:between': 28000,
-    'multi:family:in-changes': 14000, 'multi:family:layout': 14000, 'multi:family:slurp': 14000, 'op:badd': 96000,
-    'op:seteach': 16000, 'op:fmt': 100000, 'op:fmt-block': 24000, 'op:edit-after-mid-format': 230000,
-    'older:bset': 120000, 'older:badd': 65000, 'older:seteach': 15000, 'older:edit-after-mid-format': 100000,
-    'older-attr:author': 14000, 'older-attr:date': 15000, 'older-attr:urgency': 15000,
-    'older-attr:distributions': 14000, 'older-attr:package': 14000, 'older-attr:version': 14000,
-    'older-attr:urgency_comment': 15000, 'older-attr:other_pairs': 15000, 'older-attr:changes': 65000,
-    'handle:index': 63000, 'handle:neg': 40000, 'handle:iter': 40000, 'handle:list': 41000,
-    'hist:final-format-after-mid-format-and-edit': 75000, 'hist:final-format-after-older-block-edit': 83000,
+    'multi:family:in-changes': 14000, 'multi:family:layout': 14000, 'multi:family:slurp': 14000, 'op:badd': 100000,
+    'op:seteach': 33000, 'op:fmt': 150000, 'op:fmt-block': 32000, 'op:edit-after-mid-format': 300000,
+    'older:bset': 170000, 'older:badd': 70000, 'older:seteach': 29000, 'older:edit-after-mid-format': 120000,
+    'older-attr:author': 17000, 'older-attr:date': 17000, 'older-attr:urgency': 17000,
+    'older-attr:distributions': 17000, 'older-attr:package': 17000, 'older-attr:version': 54000,
+    'older-attr:urgency_comment': 17000, 'older-attr:other_pairs': 16000, 'older-attr:changes': 70000,
+    'handle:index': 78000, 'handle:neg': 55000, 'handle:iter': 56000, 'handle:list': 56000,
+    'hist:final-format-after-mid-format-and-edit': 100000, 'hist:final-format-after-older-block-edit': 120000,
     # formatting look-alike class (%, {, }, backslash in reported / accepted lines and in argument values):
     # measured on the text of the warnings the live parser emitted; a run that never has the parser report
     # such a line is inconclusive
     'fmt:accepted-silently:backslash': 160000, 'fmt:accepted-silently:brace': 230000,
-    'fmt:accepted-silently:percent': 250000, 'fmt:hist-arg:backslash': 77000, 'fmt:hist-arg:brace': 110000,
-    'fmt:hist-arg:percent': 120000, 'fmt:hist-start:backslash': 70000, 'fmt:hist-start:brace': 97000,
-    'fmt:hist-start:percent': 100000, 'fmt:normalform:backslash': 540000, 'fmt:normalform:brace': 780000,
+    'fmt:accepted-silently:percent': 250000, 'fmt:hist-arg:backslash': 100000, 'fmt:hist-arg:brace': 150000,
+    'fmt:hist-arg:percent': 160000, 'fmt:hist-start:backslash': 99000, 'fmt:hist-start:brace': 130000,
+    'fmt:hist-start:percent': 140000, 'fmt:normalform:backslash': 540000, 'fmt:normalform:brace': 780000,
     'fmt:normalform:percent': 830000, 'fmt:reported-on-2+-blocks': 61000, 'fmt:reported-token:%': 14000,
     'fmt:reported-token:%%': 24000, 'fmt:reported-token:%(x)s': 29000, 'fmt:reported-token:%d': 30000,
     'fmt:reported-token:%s': 54000, 'fmt:reported-token:100%': 34000, 'fmt:reported-token:backslash': 82000,
@@ -259,13 +315,37 @@ _T_COUNTERS = {
     'fmt:site-on-text-with-special:unexpected-line-between-blocks': 200000,
     'fmt:site-on-text-with-special:unexpected-line-in-changes': 220000, 'fmt:strict-raised-on:backslash': 43000,
     'fmt:strict-raised-on:brace': 99000, 'fmt:strict-raised-on:percent': 120000,
+    # Version-object class (a Version handed to new_block / the setters and mutated by the caller afterwards; a Version
+    # read from the changelog and mutated): counted only when str(object) changed; a run that never does it is inconclusive
+    'hist:final-format-after-version-object-mutation': 72000, 'vobj:edit-after-mutation': 110000,
+    'vobj:format-after-mutation': 28000, 'vobj:format-checked-after-mutation:passed-to-new_block': 27000,
+    'vobj:format-checked-after-mutation:passed-to-setter': 41000,
+    'vobj:format-checked-after-mutation:read-from-changelog': 40000, 'vobj:handed-again-after-mutation': 5500,
+    'vobj:handed:bset': 86000, 'vobj:handed:new_block': 72000, 'vobj:handed:set': 23000, 'vobj:handed:seteach': 12000,
+    'vobj:mutated-after-mid-format': 39000, 'vobj:mutated-attr:debian_revision': 29000,
+    'vobj:mutated-attr:debian_version': 28000, 'vobj:mutated-attr:epoch': 26000,
+    'vobj:mutated-attr:full_version': 31000, 'vobj:mutated-attr:upstream_version': 31000,
+    'vobj:mutated-kind:passed-to-new_block': 36000, 'vobj:mutated-kind:passed-to-setter': 55000,
+    'vobj:mutated-kind:read-from-changelog': 54000, 'vobj:mutated-object-handed-to-several-blocks': 9100,
+    'vobj:mutated-while-block-is:every-block': 4900, 'vobj:mutated-while-block-is:newest': 100000,
+    'vobj:mutated-while-block-is:older': 40000, 'vobj:mutated:arg:bset': 40000, 'vobj:mutated:arg:new_block': 36000,
+    'vobj:mutated:arg:set': 9800, 'vobj:mutated:arg:seteach': 4900, 'vobj:mutated:read:block': 18000,
+    'vobj:mutated:read:cl.version': 9200, 'vobj:mutated:read:get_version': 9100,
+    'vobj:mutated:read:get_versions': 9200, 'vobj:mutated:read:versions': 9100, 'vobj:read-from-older-block': 30000,
+    'vobj:read-handle:index': 9500, 'vobj:read-handle:iter': 9400, 'vobj:read-handle:list': 9400,
+    'vobj:read-handle:neg': 9500, 'vobj:read:block': 37000, 'vobj:read:cl.version': 18000,
+    'vobj:read:get_version': 18000, 'vobj:read:get_versions': 18000, 'vobj:read:versions': 18000,
 }
 FLOORS = {
-    'quick': {'nontrivial': 14000,
-              'monitors': {'M.total': 27000, 'M.strict': 27000, 'M.normalform': 26000, 'M.history': 7600, 'M.history-mid': 2300, 'M.model': 26000, 'M.blockwise': 70000, 'P.state-line': 460000},
+    'quick': {'nontrivial': 16000,
+              'monitors': {'M.total': 27000, 'M.strict': 27000, 'M.normalform': 26000, 'M.history': 9800, 'M.history-mid': 3100,
+                           'M.model': 34000, 'M.blockwise': 84000, 'M.vobject': 11000, 'M.vobject-format': 2800,
+                           'P.state-line': 460000},
               'counters': _Q_COUNTERS},
-    'thorough': {'nontrivial': 630000,
-                 'monitors': {'M.total': 1200000, 'M.strict': 1200000, 'M.normalform': 1100000, 'M.history': 200000, 'M.history-mid': 91000, 'M.model': 1200000, 'M.blockwise': 2900000, 'P.state-line': 20000000},
+    'thorough': {'nontrivial': 700000,
+                 'monitors': {'M.total': 1200000, 'M.strict': 1200000, 'M.normalform': 1100000, 'M.history': 270000,
+                              'M.history-mid': 120000, 'M.model': 1500000, 'M.blockwise': 3400000, 'M.vobject': 490000,
+                              'M.vobject-format': 100000, 'P.state-line': 20000000},
                  'counters': _T_COUNTERS},
 }
 
@@ -528,6 +608,13 @@ def cases(ctx):
                         idx += 1
                         hn += 1
 
+    # 1e. enumerated Version-object matrix: (empty + new_block | one block | three blocks) x (every way a Version object
+    #     is handed to / read from the changelog, every block) x (seven mutations of that object) x (what follows)
+    for case in _enum_vobj():
+        if ctx.mine(idx):
+            yield case
+        idx += 1
+
     # 2. random mutated texts
     r = ctx.rng('texts')
     for i in range(ctx.size(TEXTS['quick'], TEXTS['thorough'])):
@@ -560,6 +647,154 @@ def cases(ctx):
     r = ctx.rng('mhists')
     for i in range(ctx.size(MHISTS['quick'], MHISTS['thorough'])):
         yield gen_history_multi(r, fixtures)
+
+    # 3c. histories in which Version OBJECTS cross the API: handed to new_block / the version setters and mutated by
+    #     the caller afterwards; read from the changelog and mutated
+    r = ctx.rng('vhists')
+    for i in range(ctx.size(VHISTS['quick'], VHISTS['thorough'])):
+        yield gen_history_vobj(r, fixtures)
+
+
+# Version-object class -------------------------------------------------------
+# op encodings (all JSON): a version VALUE may be a str, {'__version__': s} (fresh Version(s), not kept),
+# {'__version__': s, 'keep': 1} (fresh Version(s), handed over and KEPT by the caller) or {'__held__': k} (the k-th kept
+# object, k modulo the number of kept objects, -1 = the most recent one, handed over again as it is now);
+# ['vread', src, i, handle] keeps a Version object read from the changelog; ['vmut', k, attribute, value] assigns to an
+# attribute of the k-th kept object.
+VATTRS = ['upstream_version', 'debian_revision', 'debian_version', 'epoch', 'full_version']
+VMUT_VALUES = {'upstream_version': ['9.9', '7~vp', '0', '3.1+z'], 'debian_revision': ['9', '0vp1', None, '7~bpo1'],
+               'debian_version': ['8', None, '0vp2'], 'epoch': ['7', '0', None, '12'],
+               'full_version': ['9:8.7-6', '5', '4.4-4', '0~vp']}
+VREAD_SRCS = ['cl.version', 'get_version', 'block', 'block', 'versions', 'get_versions']
+ENUM_VMUTS = [('upstream_version', '9.9'), ('debian_revision', '77'), ('debian_revision', None), ('debian_version', '0vp1'),
+              ('epoch', '5'), ('epoch', None), ('full_version', '8:7.6-5')]
+ENUM_V = '1:2.5~rc1-3'      # epoch, upstream and revision present: every enumerated mutation changes the object
+
+
+def _enum_vobj():
+    full = {'package': 'n', 'distributions': 'unstable', 'urgency': 'low', 'changes': ['', '  * new', ''],
+            'author': 'N <n@a>', 'date': 'Tue, 2 Jan 2001 01:02:03 +0100'}
+    kept = {'__version__': ENUM_V, 'keep': 1}
+    starts = [(None, [['new_block', dict(full, version='0.1-1')]], 1),
+              ('\n'.join(ENUM_BASE) + '\n', [], 1),
+              ('\n'.join(l for b in ENUM_BLOCKS for l in b) + '\n', [], 3)]
+    hn = 0
+    for start, prefix, n in starts:
+        paths = [[['new_block', dict(full, version=dict(kept))]], [['set', 'version', dict(kept)]],
+                 [['set', 'version', dict(kept), 'method']], [['seteach', 'version', dict(kept)]],
+                 [['vread', 'cl.version']], [['vread', 'get_version']]]
+        for i in range(n):
+            paths.append([['bset', i, 'version', dict(kept), HANDLES[(hn + i) % 4]]])
+            paths.append([['vread', 'block', i, HANDLES[(hn + i + 1) % 4]]])
+            paths.append([['vread', 'versions', i]])
+            paths.append([['vread', 'get_versions', i]])
+        for path in paths:
+            for a, v in ENUM_VMUTS:
+                a2, v2 = ENUM_VMUTS[(hn + 3) % len(ENUM_VMUTS)]
+                m, m2 = ['vmut', -1, a, v], ['vmut', -1, a2, v2]
+                e = ['bset', min(1, n - 1), 'urgency', 'HIGH', HANDLES[hn % 4]]
+                for tail in ([m], [m, ['fmt']], [['fmt'], m], [m, e, ['fmt']], [m, m2]):
+                    yield {'kind': 'hist', 'start': start, 'aea': False, 'ops': prefix + path + tail, 'src': 'vobj-enum'}
+                hn += 1
+
+
+def _vmut(r, k=None):
+    attr = r.choice(VATTRS)
+    return ['vmut', r.choice([-1, -1, r.randrange(6)]) if k is None else k, attr, r.choice(VMUT_VALUES[attr])]
+
+
+def gen_history_vobj(r, fixtures):
+    """A history in which Version objects are handed to the changelog and mutated by the caller afterwards, and
+    Version objects read from the changelog are mutated; ordinary edits, new_block calls and formats in between."""
+    start, aea, ops = None, False, []
+    keep = lambda: {'__version__': g.ver(r), 'keep': 1}
+    k = r.random()
+    if k < 0.22:
+        for _ in range(r.choice([1, 1, 2, 3])):
+            kw = _new_block_kwargs(r, subset=False)
+            kw['version'] = keep() if r.random() < 0.7 else g.ver(r)
+            ops.append(['new_block', kw])
+    elif k < 0.55:
+        start = '\n'.join(g.wellformed(r, nblocks=r.choice([1, 2, 2, 3]))) + '\n'
+    elif k < 0.70 and _fixture_run(r, fixtures, 1, 3) is not None:
+        start = '\n'.join(l for b in _fixture_run(r, fixtures, 1, 3) for l in b) + '\n'
+    elif k < 0.85:
+        lines, _info = g.multi_irregular(r)
+        start = '\n'.join(lines) + '\n'
+        aea = r.random() < 0.4
+    else:
+        lines, _ops = g.mutate(r, g.wellformed(r, nblocks=r.choice([1, 2, 3])), r.randint(1, 2))
+        start = '\n'.join(lines) + '\n'
+        aea = r.random() < 0.4
+    body = []
+    holds = sum(1 for o in ops if isinstance(o[1].get('version'), dict))
+    for _ in range(r.randint(4, 10)):
+        kind = r.choice(['hand_new', 'hand_new', 'hand_set', 'hand_bset', 'hand_bset', 'hand_bset', 'hand_each', 'reuse',
+                         'reuse', 'vread', 'vread', 'vread', 'vread', 'vread', 'vmut', 'vmut', 'vmut', 'vmut', 'vmut',
+                         'vmut', 'fmt', 'fmt', 'edit', 'edit', 'edit'])
+        if holds == 0 and kind in ('vmut', 'reuse'):
+            kind = r.choice(['vread', 'hand_bset', 'hand_new'])
+        if kind == 'hand_each' and r.random() < 0.5:
+            kind = 'hand_bset'
+        i, how = r.choice([0, 0, 1, 1, 2, 3]), r.choice(HANDLES)
+        if kind in ('hand_new', 'hand_set', 'hand_bset', 'hand_each', 'reuse'):
+            val = keep() if kind != 'reuse' else {'__held__': r.choice([-1, -1, r.randrange(6)])}
+            form = kind if kind != 'reuse' else r.choice(['hand_new', 'hand_set', 'hand_bset', 'hand_bset', 'hand_each'])
+            if form == 'hand_new':
+                kw = _new_block_kwargs(r, subset=False)
+                kw['version'] = val
+                body.append(['new_block', kw])
+            elif form == 'hand_set':
+                body.append(['set', 'version', val] + (['method'] if r.random() < 0.4 else []))
+            elif form == 'hand_bset':
+                body.append(['bset', i, 'version', val, how])
+            else:
+                body.append(['seteach', 'version', val])
+            holds += kind != 'reuse'
+        elif kind == 'vread':
+            body.append(['vread', r.choice(VREAD_SRCS), i, how])
+            holds += 1
+        elif kind == 'vmut':
+            m = _vmut(r)
+            body.append(m)
+            if r.random() < 0.35:
+                body.append(_vmut(r, m[1]))
+        elif kind == 'fmt':
+            body.append(['fmt'] if r.random() < 0.8 else ['fmt', 'block', i])
+        else:
+            e = r.random()
+            if e < 0.45:
+                attr = r.choice(OLDER_ATTRS)
+                body.append(['bset', i, attr, _assign_value(r, attr), how])
+            elif e < 0.65:
+                body.append(['badd', i, g.change(r).rstrip(), how])
+            elif e < 0.8:
+                attr = r.choice(['version', 'package', 'distributions', 'urgency', 'author', 'date'])
+                body.append(['set', attr, _assign_value(r, attr)])
+            elif e < 0.9:
+                body.append(['add_change', g.change(r).rstrip()])
+            else:
+                body.append(['new_block', _new_block_kwargs(r, subset=False)])
+    # at least one mutation of an object that was handed over / read before it
+    first_hold = next((n for n, o in enumerate(ops + body) if _holds(o)), None)
+    if first_hold is None:
+        body.append(['vread', r.choice(VREAD_SRCS), r.choice([0, 1]), r.choice(HANDLES)])
+        first_hold = len(ops + body) - 1
+    if not any(o[0] == 'vmut' for o in (ops + body)[first_hold + 1:]):
+        body.append(_vmut(r, -1))
+    if r.random() < 0.5:           # something ordinary happens after the last mutation
+        attr = r.choice(['urgency', 'distributions', 'author', 'date', 'package'])
+        body.append(r.choice([['fmt'], ['bset', r.choice([0, 1]), attr, _assign_value(r, attr), r.choice(HANDLES)],
+                              ['add_change', g.change(r).rstrip()]]))
+    return {'kind': 'hist', 'start': start, 'aea': aea, 'ops': ops + body, 'src': 'vobj'}
+
+
+def _holds(op):
+    """True when the op (statically) leaves a Version object in the caller's hands."""
+    if op[0] == 'vread':
+        return True
+    val = op[1].get('version') if op[0] == 'new_block' else (op[3] if op[0] == 'bset' else op[2] if op[0] in ('set', 'seteach') else None)
+    return isinstance(val, dict) and bool(val.get('keep'))
 
 
 def _fixture_run(r, fixtures, lo=2, hi=4):
@@ -957,43 +1192,160 @@ def _handle(c, idx, how):
     return c[idx]
 
 
-def _do_op(c, op):
-    """One editing call on the live object.  Returns (kind, block index, attribute, handle) or None (skipped)."""
+class _NoHeld(Exception):
+    """The op refers to a kept Version object but the caller holds none (nothing readable was read)."""
+
+
+def _version_arg(val, held):
+    """-> (value to pass to the library, the version that passing it SETS (str), hold entry or None)."""
     from debian import debian_support as ds
+    if not isinstance(val, dict):
+        return val, str(val), None
+    if '__held__' in val:
+        if not held:
+            raise _NoHeld()
+        e = held[val['__held__'] % len(held)]
+        return e['obj'], str(e['obj']), e       # what the caller's object shows now is what the call sets
+    obj = ds.Version(val['__version__'])
+    entry = {'obj': obj, 'origin': None, 'block': None, 'new': True, 'handed': 0} if val.get('keep') else None
+    return obj, str(val['__version__']), entry
+
+
+def _hold(held, entry, origin, block):
+    if entry is None or held is None:
+        return
+    entry['handed'] = entry.get('handed', 0) + 1
+    if entry.pop('new', False):
+        entry.update(origin=origin, block=block)
+        held.append(entry)
+
+
+def _do_op(c, op, held=None):
+    """One call on the live object.  Returns (kind, block index, attribute, handle, extra) or None / 'no-held'
+    (skipped).  `held`: the Version objects the caller keeps (dicts: obj, origin, block)."""
+    held = [] if held is None else held
+    try:
+        return _do_op_inner(c, op, held)
+    except _NoHeld:
+        return 'no-held'
+
+
+def _do_op_inner(c, op, held):
     kind = op[0]
+    if kind == 'vmut':              # the caller assigns to an attribute of a Version object it keeps
+        if not held:
+            return 'no-held'
+        e = held[op[1] % len(held)]
+        before, outcome = str(e['obj']), 'applied'
+        try:
+            setattr(e['obj'], op[2], op[3])
+        except ValueError:
+            outcome = 'rejected'
+        except Exception as x:      # the Version class is not this property's subject
+            outcome = 'raised:' + type(x).__name__
+        return (kind, None, op[2], None, (e, before, str(e['obj']), outcome))
     if kind == 'new_block':
         kw = dict(op[1])
+        setval = entry = None
         if isinstance(kw.get('version'), dict):
-            kw['version'] = ds.Version(kw['version']['__version__'])
+            kw['version'], setval, entry = _version_arg(kw['version'], held)
         if 'changes' in kw:
             kw['changes'] = list(kw['changes'])        # the library keeps (and later edits) the list it is given
         if 'other_pairs' in kw:
             kw['other_pairs'] = dict(kw['other_pairs'])
         c.new_block(**kw)
-        return (kind, 0, None, None)
+        _hold(held, entry, 'arg:new_block', c[0] if len(c) else None)
+        return (kind, 0, None, None, (setval, entry))
     if len(c) == 0:
         return None
+    if kind == 'vread':             # the caller reads a Version object from the changelog and keeps it
+        src = op[1]
+        idx = 0 if src in ('cl.version', 'get_version') else (op[2] if len(op) > 2 else 0) % len(c)
+        how = (op[3] if len(op) > 3 else 'index') if src == 'block' else None
+        blk = _handle(c, idx, how) if src == 'block' else list(c)[idx]
+        if src == 'cl.version':
+            v = c.version
+        elif src == 'get_version':
+            v = c.get_version()
+        elif src == 'block':
+            v = blk.version
+        elif src == 'versions':
+            v = c.versions[idx]
+        elif src == 'get_versions':
+            v = c.get_versions()[idx]
+        else:
+            raise ValueError('unknown vread source %r' % (src,))
+        if v is not None:
+            held.append({'obj': v, 'origin': 'read:' + src, 'block': blk, 'handed': 0})
+        return (kind, idx, 'version', how, None if v is None else str(v))
     if kind == 'add_change':
         c.add_change(op[1])
-        return (kind, 0, 'changes', None)
+        return (kind, 0, 'changes', None, None)
     if kind == 'set':
-        setattr(c, op[1], op[2])
-        return (kind, 0, op[1], None)
+        val, setval, entry = (op[2], None, None)
+        if op[1] == 'version':
+            val, setval, entry = _version_arg(op[2], held)
+        if len(op) > 3 and op[3] == 'method' and op[1] == 'version':
+            c.set_version(val)
+        else:
+            setattr(c, op[1], val)
+        _hold(held, entry, 'arg:set', c[0])
+        return (kind, 0, op[1], None, (setval, entry))
     if kind == 'bset':
         idx = op[1] % len(c)
         how = op[4] if len(op) > 4 else 'index'
-        setattr(_handle(c, idx, how), op[2], copy.deepcopy(op[3]))
-        return (kind, idx, op[2], how)
+        val, setval, entry = (copy.deepcopy(op[3]), None, None)
+        if op[2] == 'version':
+            val, setval, entry = _version_arg(op[3], held)
+        b = _handle(c, idx, how)
+        setattr(b, op[2], val)
+        _hold(held, entry, 'arg:bset', b)
+        return (kind, idx, op[2], how, (setval, entry))
     if kind == 'badd':
         idx = op[1] % len(c)
         how = op[3] if len(op) > 3 else 'index'
         _handle(c, idx, how).add_change(op[2])
-        return (kind, idx, 'changes', how)
+        return (kind, idx, 'changes', how, None)
     if kind == 'seteach':
-        for b in c:
-            setattr(b, op[1], copy.deepcopy(op[2]))
-        return (kind, None, op[1], 'iter')
+        setval = entry = None
+        if op[1] == 'version':      # ONE object handed to every block
+            val, setval, entry = _version_arg(op[2], held)
+            for b in c:
+                b.version = val
+        else:
+            for b in c:
+                setattr(b, op[1], copy.deepcopy(op[2]))
+        _hold(held, entry, 'arg:seteach', None)
+        return (kind, None, op[1], 'iter', (setval, entry))
     raise ValueError('unknown op %r' % (op,))
+
+
+def _views(c, model):
+    """Changelog-level version views vs the model: (view name, shown, expected) of the first disagreement, or None.
+    A view is compared only when every version it has to construct is valid (or unset) in the model."""
+    if not len(c):
+        return None
+    mv = [m['version'] for m in model]
+
+    def ok(x):
+        return x is None or not x.startswith('raw:')
+
+    def show(v):
+        return None if v is None else str(v)
+    if ok(mv[0]):
+        for name, got in (('cl.version', show(c.version)), ('cl.get_version()', show(c.get_version()))):
+            if got != mv[0]:
+                return (name, got, mv[0])
+    if all(ok(x) for x in mv):
+        for name, got in (('cl.versions', [show(v) for v in c.versions]),
+                          ('cl.get_versions()', [show(v) for v in c.get_versions()])):
+            if got != mv:
+                return (name, got, mv)
+    return None
+
+
+ORIGIN_KIND = {'arg:new_block': 'passed-to-new_block', 'arg:set': 'passed-to-setter', 'arg:bset': 'passed-to-setter',
+               'arg:seteach': 'passed-to-setter'}
 
 
 def apply_ops(ctx, c, ops, aea, case):
@@ -1002,6 +1354,7 @@ def apply_ops(ctx, c, ops, aea, case):
     from debian import changelog as cl
     model = snap_all(c)
     st = collections.Counter()
+    held = []           # Version objects the caller keeps: handed to the changelog, or read from it
 
     def stop(key, msg):
         ctx.violation(key, msg, case)
@@ -1028,16 +1381,28 @@ def apply_ops(ctx, c, ops, aea, case):
                 if again != out:         # layout-only impurity: the statement is silent -> evidence, not a verdict
                     _note(ctx, 'format-not-repeatable', 'two consecutive formats gave %r then %r' % (out, again))
                 st['fmt'] += 1
+                if st['vmut-changed']:
+                    ctx.count('vobj:format-after-mutation')
                 if not block and st['midcheck'] < 2 and pos < len(ops) - 1:
                     st['midcheck'] += 1          # the text formatted in mid-history is itself a normal form
                     normal_form(ctx, c, aea, case, 'M.history-mid', expect=model)
             continue
-        r = _do_op(c, op)
-        if r is None:
-            ctx.count('op:skipped-no-block')
+        try:
+            r = _do_op(c, op, held)
+        except ValueError:
+            # reading a Version from a block whose raw version is not a valid version (mutated start texts) raises
+            if op[0] == 'vread' and len(c) and any((m['version'] or '').startswith('raw:') for m in model):
+                ctx.count('vobj:read-unreadable')
+                continue
+            raise
+        if r is None or r == 'no-held':
+            ctx.count('op:skipped-no-block' if r is None else 'op:skipped-nothing-held')
             continue
-        kind, idx, attr, how = r
+        kind, idx, attr, how, xtra = r
         live = snap_all(c)
+        if kind in ('vread', 'vmut'):
+            _check_vop(ctx, c, op, pos, r, live, model, st, aea, case, stop)
+            continue
         ctx.mon('M.model')
         if kind == 'new_block':
             if len(live) != len(model) + 1:
@@ -1047,7 +1412,11 @@ def apply_ops(ctx, c, ops, aea, case):
                 stop('edit-changed-another-block/new_block', 'op %d: existing block %d attribute %s changed from %r to %r'
                      % (pos, d[0], d[1], model[d[0]][d[1]], live[1:][d[0]][d[1]]))
             for a in ATTRS:                  # only what was passed is demanded; defaults are taken as observed
-                if op[1].get(a) is not None and live[0][a] != _canon(a, op[1][a]):
+                if a == 'version' and xtra[0] is not None:
+                    if live[0][a] != xtra[0]:
+                        stop('new_block-argument-not-read-back/version', 'op %d: passed a Version object showing %r, '
+                             'block 0 reads %r' % (pos, xtra[0], live[0][a]))
+                elif op[1].get(a) is not None and live[0][a] != _canon(a, op[1][a]):
                     stop('new_block-argument-not-read-back/%s' % a, 'op %d: passed %r, block 0 reads %r'
                          % (pos, op[1][a], live[0][a]))
             model = [copy.deepcopy(live[0])] + model
@@ -1065,7 +1434,7 @@ def apply_ops(ctx, c, ops, aea, case):
             else:
                 val = op[2] if kind in ('set', 'seteach') else op[3]
                 for t in targets:
-                    expected[t][attr] = _canon(attr, val)
+                    expected[t][attr] = xtra[0] if (attr == 'version' and xtra and xtra[0] is not None) else _canon(attr, val)
             d = _diff(live, expected)
             if d is not None:
                 bn, an = d
@@ -1083,6 +1452,10 @@ def apply_ops(ctx, c, ops, aea, case):
             model = expected
         ctx.count('op:' + kind)
         st['done'] += 1
+        if st['vmut-changed']:
+            ctx.count('vobj:edit-after-mutation')
+        if xtra and xtra[1] is not None:        # a Version object the caller keeps went through this call
+            _after_handover(ctx, c, op, pos, kind, xtra, model, stop)
         if st['fmt']:
             st['edit-after-fmt'] += 1
             ctx.count('op:edit-after-mid-format')
@@ -1097,6 +1470,85 @@ def apply_ops(ctx, c, ops, aea, case):
             st['older'] += 1
             ctx.count('older:seteach')
     return st, model
+
+
+def _after_handover(ctx, c, op, pos, kind, xtra, model, stop):
+    setval, entry = xtra
+    if entry['handed'] > 1:
+        ctx.count('vobj:handed-again:' + kind)
+        if entry.get('mutated'):
+            ctx.count('vobj:handed-again-after-mutation')
+    else:
+        ctx.count('vobj:handed:' + kind)
+    if str(entry['obj']) != setval:     # the statement is about the changelog, not about the caller's object
+        _note(ctx, 'callers-version-object-changed-by-the-call', 'op %d (%r): the object showed %r before the call, '
+              '%r after' % (pos, op, setval, str(entry['obj'])))
+    ctx.mon('M.vobject')
+    d = _views(c, model)
+    if d is not None:
+        stop('version-view-differs-from-what-was-set/%s' % d[0], 'op %d (%r): %s shows %r, the blocks were set to %r'
+             % (pos, op, d[0], d[1], d[2]))
+
+
+def _check_vop(ctx, c, op, pos, r, live, model, st, aea, case, stop):
+    """After a Version object was read from the changelog / a kept Version object was mutated by the caller: no
+    block changed, the views show the versions that were set, the formatted text is a normal form of the model."""
+    kind, idx, attr, how, xtra = r
+    ctx.mon('M.vobject')
+    if kind == 'vread':
+        ctx.count('vobj:read:' + op[1] if xtra is not None else 'vobj:read-none')
+        if how:
+            ctx.count('vobj:read-handle:' + how)
+        d = _diff(live, model)
+        if d is not None:
+            stop('reading-a-version-changed-the-blocks/%s' % d[1], 'op %d (%r): block %r attribute %s differs after the read'
+                 % (pos, op, d[0], d[1]))
+        if xtra != model[idx]['version']:
+            stop('version-read-differs-from-what-was-set/%s' % op[1], 'op %d (%r): the object read shows %r, block %d '
+                 'was set to %r' % (pos, op, xtra, idx, model[idx]['version']))
+        if xtra is not None and idx >= 1:
+            ctx.count('vobj:read-from-older-block')
+        return
+    e, before, after, outcome = xtra
+    origin = e['origin']
+    okind = ORIGIN_KIND.get(origin, 'read-from-changelog')
+    if outcome != 'applied':
+        ctx.count('vobj:mutation-rejected')
+        if outcome != 'rejected':
+            _note(ctx, 'version-mutation-raises-other', 'op %d (%r) on Version(%r): %s' % (pos, op, before, outcome))
+    changed = after != before
+    if changed:
+        st['vmut-changed'] += 1
+        e['mutated'] = True
+        ctx.count('vobj:mutated:' + origin)
+        ctx.count('vobj:mutated-attr:' + op[2])
+        ctx.count('vobj:mutated-kind:' + okind)
+        where = [n for n, b in enumerate(c) if b is e['block']]
+        ctx.count('vobj:mutated-while-block-is:%s' % ('every-block' if origin == 'arg:seteach' else 'gone' if not where
+                                                      else 'newest' if where[0] == 0 else 'older'))
+        if e.get('handed', 0) > 1:
+            ctx.count('vobj:mutated-object-handed-to-several-blocks')
+        if st['fmt']:
+            ctx.count('vobj:mutated-after-mid-format')
+    else:
+        ctx.count('vobj:mutation-no-change')
+    d = _diff(live, model)
+    if d is not None:
+        bn, an = d
+        stop('version-object-mutation-changed-the-changelog/%s/%s' % (okind, an),
+             'op %d (%r): the caller assigned %s=%r to a Version object %s (it showed %r, shows %r now); afterwards block %r '
+             'attribute %s reads %r, the history had left %r'
+             % (pos, op, op[2], op[3], origin, before, after, bn, an, None if bn is None else live[bn][an],
+                None if bn is None else model[bn][an]))
+    d = _views(c, model)
+    if d is not None:
+        stop('version-object-mutation-changed-the-changelog/%s/%s' % (okind, d[0]),
+             'op %d (%r) on a Version object %s (showed %r, shows %r now): %s shows %r, the blocks were set to %r'
+             % (pos, op, origin, before, after, d[0], d[1], d[2]))
+    if changed and st['vcheck'] < 2:
+        st['vcheck'] += 1           # the text formatted right after the mutation still shows what was set
+        if normal_form(ctx, c, aea, case, 'M.vobject-format', expect=model):
+            ctx.count('vobj:format-checked-after-mutation:' + okind)
 
 
 def _start_changelog(case, aea):
@@ -1136,9 +1588,14 @@ def twin_check(ctx, c, case, aea):
     demands that whatever is formatted is a normal form of the current blocks, so this is reported as a note."""
     from debian import changelog as cl
     twin, _w = _start_changelog(case, aea)
+    held = []
     for op in case['ops']:
         if op[0] != 'fmt':
-            _do_op(twin, op)
+            try:
+                _do_op(twin, op, held)
+            except ValueError:
+                if op[0] != 'vread':
+                    raise
 
     def fmt(x):
         try:
@@ -1206,6 +1663,8 @@ def run_case(ctx, case):
                 ctx.count('hist:final-format-after-mid-format-and-edit')
             if st['older'] and len(c) >= 2:
                 ctx.count('hist:final-format-after-older-block-edit')
+            if st['vmut-changed']:
+                ctx.count('hist:final-format-after-version-object-mutation')
             if st['done'] >= 2:
                 ctx.nontrivial(case={'start': case.get('start'), 'ops': case['ops']})
         ctx.count('hsrc:' + case.get('src', 'random'))
